@@ -43,15 +43,17 @@ Proof. vm_compute. repeat split. Qed.
 (* initial_setup / per_scan_setup: 4:2:0 at 33x17 accepted; 11 blocks per MCU rejected *)
 Definition c420 : list comp := [{| c_h := 2; c_v := 2 |}; {| c_h := 1; c_v := 1 |}; {| c_h := 1; c_v := 1 |}].
 Lemma setup_examples :
-  (exists u, snd (initial_setup 33 17 3 3 8 false c420) = inr u /\
-             snd (per_scan_setup 33 17 false u 3 [0;1;2] 0 70000) =
+  match snd (initial_setup 33 17 3 3 8 false c420) with
+  | inr u => snd (per_scan_setup 33 17 false u 3 [0;1;2] 0 70000) =
                inr {| i_blocks_in_MCU := 6; i_membership := [0;0;0;0;1;2]; i_MCUs_per_row := 3; i_MCU_rows := 2;
-                      i_restart_interval := 65535; i_last := [(1, 1); (1, 1); (1, 1)] |}) /\
-  (exists u, snd (initial_setup 33 17 3 3 8 false [{| c_h := 4; c_v := 2 |}; {| c_h := 2; c_v := 1 |}; {| c_h := 1; c_v := 1 |}]) = inr u /\
-             snd (per_scan_setup 33 17 false u 3 [0;1;2] 0 0) = inl BadMcuSize) /\
+                      i_restart_interval := 65535; i_last := [(1, 1); (1, 1); (1, 1)] |}
+  | inl _ => False end /\
+  match snd (initial_setup 33 17 3 3 8 false [{| c_h := 4; c_v := 2 |}; {| c_h := 2; c_v := 1 |}; {| c_h := 1; c_v := 1 |}]) with
+  | inr u => snd (per_scan_setup 33 17 false u 3 [0;1;2] 0 0) = inl BadMcuSize
+  | inl _ => False end /\
   snd (initial_setup 65501 1 1 1 8 false c420) = inl ImageTooBig /\
   snd (initial_setup 8 8 3 3 8 false [{| c_h := 5; c_v := 1 |}; {| c_h := 1; c_v := 1 |}; {| c_h := 1; c_v := 1 |}]) = inl BadSampling.
-Proof. vm_compute. repeat split; eexists; split; reflexivity. Qed.
+Proof. vm_compute. repeat split. Qed.
 
 (* a worst-case-looking block at 12 bits: every coefficient 16383, all symbols 16 bits long *)
 Definition long_tbl : ctbl := {| ehufco := repeat 65534 257; ehufsi := repeat 16 257 |}.
@@ -77,6 +79,8 @@ Proof. vm_compute. repeat split; reflexivity. Qed.
 
 (* a restart interval above 65535 stored directly is limited to the 16 bits of the DRI marker *)
 Lemma restart_interval_clamped :
-  exists u i, snd (initial_setup 8 8 1 1 8 false [{| c_h := 1; c_v := 1 |}]) = inr u /\
-              snd (per_scan_setup 8 8 false u 1 [0] 100000 0) = inr i /\ i_restart_interval i = 65535.
-Proof. eexists. eexists. vm_compute. repeat split. Qed.
+  match snd (initial_setup 8 8 1 1 8 false [{| c_h := 1; c_v := 1 |}]) with
+  | inr u => match snd (per_scan_setup 8 8 false u 1 [0] 100000 0) with
+             | inr i => i_restart_interval i = 65535 | inl _ => False end
+  | inl _ => False end.
+Proof. vm_compute. reflexivity. Qed.
